@@ -1126,7 +1126,7 @@ theorem C12_on_wire_source {p : QP} (hp : p.ok) {c0 : Int} {pre : List QEv} {q1 
     ∃ s1 s', runGenEv pre (MulticastOutgoingQueue.init () p.addl p.agg) = .ok (s1, outs1)
       ∧ runGenEv (.add c now draw answers :: post) s1 = .ok (s', outs)
       ∧ ∀ r ∈ answers.keys,
-          (∃ o ∈ outs, r ∈ o.2.keys ∧ c ≤ o.1 ∧ o.1 ≤ c + p.agg + p.addl) ∨ c' ≤ c + p.agg + p.addl ∨ withdrawnIn post r := by
+          (∃ o ∈ outs, r ∈ o.2.keys ∧ c ≤ o.1 ∧ o.1 ≤ c + p.agg + p.addl) ∨ c' ≤ c + p.agg + p.addl ∨ withdrawnIn post r (c + p.agg + p.addl) := by
   obtain ⟨s1, h1, hr1, hq1⟩ := run_source hpre hwf1 (s := MulticastOutgoingQueue.init () p.addl p.agg) (q := {})
     ⟨rfl, fun g hg => by cases hg⟩ rfl
   obtain ⟨s', h2, _, _⟩ := run_source hrun hwf2 hr1 hq1
@@ -1139,11 +1139,11 @@ theorem C12_on_wire_queues_source {c0 : Int} {pre : List QEv} {q1 : Queue} {c1 :
     (Run outQP {} c0 pre q1 c1 outs1 → Run outQP q1 c1 (.add c now draw answers :: post) q' c' outs →
       ∃ s1 s', runGenEv pre (MulticastOutgoingQueue.init () outQP.addl outQP.agg) = .ok (s1, outs1)
         ∧ runGenEv (.add c now draw answers :: post) s1 = .ok (s', outs)
-        ∧ ∀ r ∈ answers.keys, (∃ o ∈ outs, r ∈ o.2.keys ∧ c ≤ o.1 ∧ o.1 ≤ c + 500) ∨ c' ≤ c + 500 ∨ withdrawnIn post r)
+        ∧ ∀ r ∈ answers.keys, (∃ o ∈ outs, r ∈ o.2.keys ∧ c ≤ o.1 ∧ o.1 ≤ c + 500) ∨ c' ≤ c + 500 ∨ withdrawnIn post r (c + 500))
     ∧ (Run delayQP {} c0 pre q1 c1 outs1 → Run delayQP q1 c1 (.add c now draw answers :: post) q' c' outs →
       ∃ s1 s', runGenEv pre (MulticastOutgoingQueue.init () delayQP.addl delayQP.agg) = .ok (s1, outs1)
         ∧ runGenEv (.add c now draw answers :: post) s1 = .ok (s', outs)
-        ∧ ∀ r ∈ answers.keys, (∃ o ∈ outs, r ∈ o.2.keys ∧ c ≤ o.1 ∧ o.1 ≤ c + 1200) ∨ c' ≤ c + 1200 ∨ withdrawnIn post r) := by
+        ∧ ∀ r ∈ answers.keys, (∃ o ∈ outs, r ∈ o.2.keys ∧ c ≤ o.1 ∧ o.1 ≤ c + 1200) ∨ c' ≤ c + 1200 ∨ withdrawnIn post r (c + 1200)) := by
   constructor
   · intro hpre hrun
     obtain ⟨s1, s', h1, h2, _⟩ := C12_on_wire_source outQP_ok hpre hwf1 hrun hwf2
@@ -1166,7 +1166,7 @@ theorem C12_aggregated_on_wire_source {h : Host} {clock : Int} {pkts : List Pkt}
     ∃ first d s1 s', pkts.head? = some first
       ∧ runGenEv pre (MulticastOutgoingQueue.init () outQP.addl outQP.agg) = .ok (s1, outs1)
       ∧ runGenEv (.add clock first.now d qa.mcastAgg :: post) s1 = .ok (s', outs)
-      ∧ ((∃ o ∈ outs, rid ∈ o.2.keys ∧ clock ≤ o.1 ∧ o.1 ≤ clock + 500) ∨ c' ≤ clock + 500 ∨ withdrawnIn post rid) := by
+      ∧ ((∃ o ∈ outs, rid ∈ o.2.keys ∧ clock ≤ o.1 ∧ o.1 ≤ clock + 500) ∨ c' ≤ clock + 500 ∨ withdrawnIn post rid (clock + 500)) := by
   obtain ⟨first, hf, _, _, hq1, _⟩ := assemble_spec hs hqa
   obtain ⟨d, hd1, hd2, heq⟩ := hq1.2 (Dict.isEmpty_false_of_mem hr)
   rw [heq] at hpost
@@ -1195,7 +1195,7 @@ theorem C12_protected_on_wire_source {h : Host} {clock : Int} {pkts : List Pkt} 
     ∃ first d s1 s', pkts.head? = some first
       ∧ runGenEv pre (MulticastOutgoingQueue.init () delayQP.addl delayQP.agg) = .ok (s1, outs1)
       ∧ runGenEv (.add clock first.now d qa.mcastLast :: post) s1 = .ok (s', outs)
-      ∧ ((∃ o ∈ outs, rid ∈ o.2.keys ∧ clock ≤ o.1 ∧ o.1 ≤ clock + 1200) ∨ c' ≤ clock + 1200 ∨ withdrawnIn post rid) := by
+      ∧ ((∃ o ∈ outs, rid ∈ o.2.keys ∧ clock ≤ o.1 ∧ o.1 ≤ clock + 1200) ∨ c' ≤ clock + 1200 ∨ withdrawnIn post rid (clock + 1200)) := by
   obtain ⟨first, hf, _, _, _, hq2⟩ := assemble_spec hs hqa
   obtain ⟨d, hd1, hd2, heq⟩ := hq2.2 (Dict.isEmpty_false_of_mem hr)
   rw [heq] at hpost
